@@ -15,14 +15,14 @@ def RowWF (r : Row) : Prop :=
     offered: a JWT presentation with an id, addressed to the service, expiring within the maximum validity, signed by a
     DID of an allowed method, verifiable; a registration does not outlive its credentials and its credentials all and
     only fulfil the definition; a retraction carries no credentials and names an entry of the same signer. -/
-structure Acceptable (d : Def) (s : Store) (now : Nat) (vp : VP) (subj : String) (e : Nat) : Prop where
+structure Acceptable (d : Def) (side : Side) (s : Store) (now : Nat) (vp : VP) (subj : String) (e : Nat) : Prop where
   jwt : vp.jwt = true
   hasId : ∃ i, vp.id = some i
   addressed : d.id ∈ vp.aud
   exp : vp.exp = some e
   within : e ≤ now + d.maxValidity
   signer : ∃ m, vp.signer = some (subj, m) ∧ (d.didMethods = [] ∨ m ∈ d.didMethods)
-  verifiable : vp.verifyS = true
+  verifiable : vp.verdict side = true
   registration : vp.retraction = false →
     (∀ c ∈ vp.creds, ∀ ce, c.exp = some ce → e ≤ ce) ∧ vp.pex = .matched vp.creds.length
   retraction : vp.retraction = true →
@@ -96,8 +96,8 @@ theorem validateRetraction_ok (s : Store) (subj : String) (vp : VP) :
     have hk := (hasKey_iff s subj j).mpr hr
     simp [hc, hj, hne, hk]
 
-theorem verify_ok_acceptable (d : Def) (s : Store) (now : Nat) (vp : VP) :
-    verify d s now .server vp = .ok () ↔ ∃ subj e, Acceptable d s now vp subj e := by
+theorem verify_ok_acceptable (d : Def) (side : Side) (s : Store) (now : Nat) (vp : VP) :
+    verify d s now side vp = .ok () ↔ ∃ subj e, Acceptable d side s now vp subj e := by
   constructor
   · intro h
     unfold verify at h
@@ -130,7 +130,7 @@ theorem verify_ok_acceptable (d : Def) (s : Store) (now : Nat) (vp : VP) :
                     · rename_i hver
                       refine ⟨subj, e, ?_⟩
                       have hj : vp.jwt = true := by cases hv : vp.jwt <;> simp_all
-                      refine ⟨hj, ⟨i, hid⟩, ?_, hexp, by omega, ⟨m, hsig, ?_⟩, by simpa [VP.verdict] using hver, ?_, ?_⟩
+                      refine ⟨hj, ⟨i, hid⟩, ?_, hexp, by omega, ⟨m, hsig, ?_⟩, hver, ?_, ?_⟩
                       · simpa using haud
                       · cases hm : d.didMethods with
                         | nil => exact Or.inl rfl
@@ -163,7 +163,7 @@ theorem verify_ok_acceptable (d : Def) (s : Store) (now : Nat) (vp : VP) :
       · exact h
     have hl : ¬ (now + d.maxValidity < e) := by have := hA.within; omega
     unfold verify
-    simp [hA.jwt, hid, hA.addressed, hA.exp, hl, hsig, hbody, VP.verdict, hA.verifiable]
+    simp [hA.jwt, hid, hA.addressed, hA.exp, hl, hsig, hbody, hA.verifiable]
     exact hm
 
 /-! ### `add` and `Register` -/
@@ -190,14 +190,14 @@ theorem add_eq (s : Store) (now : Nat) (vp : VP) (seed ts fresh : Nat) (subj m i
 
 theorem register_cases (d : Def) (s : Store) (now fresh : Nat) (vp : VP) :
     (∃ o, register d s now fresh vp = (s, o) ∧ o ≠ .ok ()) ∨
-    (∃ subj e id, Acceptable d s now vp subj e ∧ vp.id = some id ∧ s.hasKey subj id = false ∧
+    (∃ subj e id, Acceptable d .server s now vp subj e ∧ vp.id = some id ∧ s.hasKey subj id = false ∧
       register d s now fresh vp =
         (((addOk s now vp subj id e (if s.seed = 0 then fresh else s.seed) (s.lastTs + 1)).1).setValidated s.nextPk, .ok ())) := by
   cases hv : verify d s now .server vp with
   | err e => left; exact ⟨.err e, by simp [register, hv], by simp⟩
   | panic p => left; exact ⟨.panic p, by simp [register, hv], by simp⟩
   | ok u =>
-    obtain ⟨subj, e, hA⟩ := (verify_ok_acceptable d s now vp).mp hv
+    obtain ⟨subj, e, hA⟩ := (verify_ok_acceptable d .server s now vp).mp hv
     obtain ⟨id, hid⟩ := hA.hasId
     obtain ⟨m, hsig, _⟩ := hA.signer
     cases hk : s.hasKey subj id with
@@ -300,7 +300,7 @@ theorem sinv_setValidated {s : Store} (pk : Nat) (h : SInv s) : SInv (s.setValid
 /-- `r` was accepted at some earlier moment: the registration predicate held of its presentation, against the
     (well-formed) list `s` of that moment -/
 def Listed (d : Def) (t : Nat) (r : Row) : Prop :=
-  ∃ s now, now ≤ t ∧ SInv s ∧ Acceptable d s now r.vp r.subject r.exp
+  ∃ s now, now ≤ t ∧ SInv s ∧ Acceptable d .server s now r.vp r.subject r.exp
 
 theorem Listed.mono {d : Def} {t t' : Nat} {r : Row} (h : Listed d t r) (ht : t ≤ t') : Listed d t' r := by
   obtain ⟨s, now, h1, h2, h3⟩ := h
@@ -364,6 +364,1026 @@ theorem run_inv (cfg : Cfg) (d : Def) (P : World → Prop) (hstep : ∀ w e, P w
 theorem serverOK_run (cfg : Cfg) (d : Def) (evs : List Ev) (w : World) (h : ServerOK d w) :
     ServerOK d (run cfg d w evs) :=
   run_inv cfg d (ServerOK d) (fun w e => serverOK_step cfg d w e) evs w h
+
+
+/-! ### the client loop as an iteration -/
+
+/-- the presentation has what `updateService` / `storePresentation` dereference -/
+def VPWF (vp : VP) (subj id : String) (e : Nat) : Prop :=
+  (∃ m, vp.signer = some (subj, m)) ∧ vp.id = some id ∧ vp.exp = some e ∧ vp.jwt = true
+
+theorem RowWF.vpwf {r : Row} (h : RowWF r) : VPWF r.vp r.subject r.id r.exp := h
+
+def seedOf (c : Store) (seed ts fresh : Nat) : Nat :=
+  if ts = 0 then (if c.seed = 0 then (if seed = 0 then fresh else seed) else c.seed) else seed
+def tsOf (c : Store) (ts : Nat) : Nat := if ts = 0 then c.lastTs + 1 else ts
+
+/-- one round of the loop in `updateService` for a well-formed presentation -/
+def clientIter (d : Def) (now seed ts : Nat) (c : Store) (ctr : Nat) (vp : VP) (subj id : String) (e : Nat) : Store × Nat :=
+  if c.hasKey subj id then (c, ctr) else
+    let a := addOk c now vp subj id e (seedOf c seed ts (ctr + 1)) (tsOf c ts)
+    (match verify d a.1 now .client vp with
+      | .ok () => a.1.setValidated a.2.pk
+      | _ => a.1, ctr + 1)
+
+theorem clientLoop_cons (d : Def) (now seed ts : Nat) (c : Store) (ctr : Nat) (vp : VP) (rest : List VP)
+    (subj id : String) (e : Nat) (h : VPWF vp subj id e) :
+    clientLoop d now seed ts c ctr (vp :: rest) =
+      clientLoop d now seed ts (clientIter d now seed ts c ctr vp subj id e).1 (clientIter d now seed ts c ctr vp subj id e).2 rest := by
+  obtain ⟨⟨m, hs⟩, hi, he, hj⟩ := h
+  unfold clientIter
+  conv => lhs; unfold clientLoop
+  simp only [hs, hi]
+  cases hk : c.hasKey subj id with
+  | true => simp
+  | false =>
+    have := add_eq c now vp seed ts (ctr + 1) subj m id e hs hi he hj
+    simp only [Bool.false_eq_true, if_false]
+    rw [this]
+    simp only [seedOf, tsOf]
+    generalize verify d _ now Side.client vp = v
+    cases v with
+    | ok u => cases u; rfl
+    | err e => rfl
+    | panic p => rfl
+
+/-- induction principle for the loop: `P done c ctr` is kept by every round -/
+theorem clientLoop_ind (d : Def) (now seed ts : Nat) (P : List VP → Store → Nat → Prop) :
+    ∀ (resp : List VP) (done : List VP) (c : Store) (ctr : Nat),
+      (∀ vp ∈ resp, ∃ subj id e, VPWF vp subj id e) →
+      (∀ done c ctr vp subj id e, vp ∈ resp → VPWF vp subj id e → P done c ctr →
+          P (vp :: done) (clientIter d now seed ts c ctr vp subj id e).1 (clientIter d now seed ts c ctr vp subj id e).2) →
+      P done c ctr →
+      ∃ done', (∀ vp, vp ∈ done' ↔ vp ∈ resp ∨ vp ∈ done) ∧
+        P done' (clientLoop d now seed ts c ctr resp).1 (clientLoop d now seed ts c ctr resp).2.1 ∧
+        (clientLoop d now seed ts c ctr resp).2.2 = .ok () := by
+  intro resp
+  induction resp with
+  | nil =>
+    intro done c ctr _ _ h
+    exact ⟨done, by simp, by simpa [clientLoop] using h, by simp [clientLoop]⟩
+  | cons vp rest ih =>
+    intro done c ctr hwf hstep h
+    obtain ⟨subj, id, e, hv⟩ := hwf vp (by simp)
+    rw [clientLoop_cons d now seed ts c ctr vp rest subj id e hv]
+    have h1 := hstep done c ctr vp subj id e (by simp) hv h
+    obtain ⟨done', hd, hp, hok⟩ := ih (vp :: done) _ _ (fun v hv' => hwf v (by simp [hv']))
+      (fun done c ctr v s i e' hv' => hstep done c ctr v s i e' (by simp [hv'])) h1
+    refine ⟨done', ?_, hp, hok⟩
+    intro v
+    rw [hd v]
+    simp only [List.mem_cons]
+    constructor
+    · rintro (h | h | h)
+      · exact Or.inl (Or.inr h)
+      · exact Or.inl (Or.inl h)
+      · exact Or.inr h
+    · rintro ((h | h) | h)
+      · exact Or.inr (Or.inl h)
+      · exact Or.inl h
+      · exact Or.inr (Or.inr h)
+
+
+/-! ### replica invariants -/
+
+def keyIn (rows : List Row) (subj id : String) : Prop := ∃ r ∈ rows, r.subject = subj ∧ r.id = id
+
+/-- every live server row at or below `τ` is held by the client -/
+def J2 (S C : Store) (t τ : Nat) : Prop :=
+  ∀ r ∈ S.rows, r.ts ≤ τ → t < r.exp → keyIn C.rows r.subject r.id
+
+/-- every live client row is listed by the server, or its subject has a newer entry (above `τ`) that does not expire earlier -/
+def J3 (S C : Store) (t τ : Nat) : Prop :=
+  ∀ c ∈ C.rows, t < c.exp → keyIn S.rows c.subject c.id ∨ ∃ r ∈ S.rows, r.subject = c.subject ∧ τ < r.ts ∧ c.exp ≤ r.exp
+
+/-- a presentation id names one presentation per signer (jti uniqueness) among the presentations `K` that are ever offered -/
+def IdFun (K : VP → Prop) : Prop :=
+  ∀ a b, K a → K b → ∀ s ma mb, a.signer = some (s, ma) → b.signer = some (s, mb) → a.id = b.id → a = b
+
+theorem pairwise_subject_inj {l : List Row} (h : l.Pairwise (fun a b => a.subject ≠ b.subject)) {a b : Row}
+    (ha : a ∈ l) (hb : b ∈ l) (hs : a.subject = b.subject) : a = b := by
+  induction l with
+  | nil => cases ha
+  | cons x xs ih =>
+    rw [List.pairwise_cons] at h
+    rcases List.mem_cons.mp ha with rfl | ha'
+    · rcases List.mem_cons.mp hb with rfl | hb'
+      · rfl
+      · exact absurd hs (h.1 b hb')
+    · rcases List.mem_cons.mp hb with rfl | hb'
+      · exact absurd hs.symm (h.1 a ha')
+      · exact ih h.2 ha' hb'
+
+theorem same_key {K : VP → Prop} (hK : IdFun K) {a b : Row} (wa : RowWF a) (wb : RowWF b) (ka : K a.vp) (kb : K b.vp)
+    (hs : a.subject = b.subject) (hi : a.id = b.id) : a.vp = b.vp ∧ a.exp = b.exp := by
+  obtain ⟨⟨ma, sa⟩, ia, ea, _⟩ := wa
+  obtain ⟨⟨mb, sb⟩, ib, eb, _⟩ := wb
+  have : a.vp = b.vp := hK a.vp b.vp ka kb a.subject ma mb sa (by rw [hs]; exact sb) (by rw [ia, ib, hi])
+  refine ⟨this, ?_⟩
+  rw [this, eb] at ea
+  exact (Option.some.inj ea).symm
+
+theorem vpwf_of_row {r : Row} (h : RowWF r) {subj id : String} {e : Nat} (hv : VPWF r.vp subj id e) :
+    subj = r.subject ∧ id = r.id ∧ e = r.exp := by
+  obtain ⟨⟨m, s1⟩, i1, e1, _⟩ := h
+  obtain ⟨⟨m', s2⟩, i2, e2, _⟩ := hv
+  rw [s1] at s2; rw [i1] at i2; rw [e1] at e2
+  cases s2; cases i2; cases e2
+  exact ⟨rfl, rfl, rfl⟩
+
+theorem iter_rows_skip {d : Def} {now seed ts : Nat} {c : Store} {ctr : Nat} {vp : VP} {subj id : String} {e : Nat}
+    (hk : c.hasKey subj id = true) : clientIter d now seed ts c ctr vp subj id e = (c, ctr) := by
+  simp [clientIter, hk]
+
+theorem iter_rows_add {d : Def} {now seed ts : Nat} {c : Store} {ctr : Nat} {vp : VP} {subj id : String} {e : Nat}
+    (hk : c.hasKey subj id = false) :
+    (clientIter d now seed ts c ctr vp subj id e).1.rows =
+      (addOk c now vp subj id e (seedOf c seed ts (ctr + 1)) (tsOf c ts)).1.rows := by
+  simp only [clientIter, hk, Bool.false_eq_true, if_false]
+  split <;> rfl
+
+structure PB (K : VP → Prop) (S : Store) (t after : Nat) (done : List VP) (c : Store) : Prop where
+  wf : ∀ r ∈ c.rows, RowWF r
+  k : ∀ r ∈ c.rows, K r.vp
+  one : c.rows.Pairwise (fun a b => a.subject ≠ b.subject)
+  j2 : J2 S c t after
+  j3 : J3 S c t after
+  q : ∀ vp ∈ done, ∀ r ∈ S.rows, r.vp = vp → t < r.exp → keyIn c.rows r.subject r.id
+
+theorem pb_step {K : VP → Prop} (hK : IdFun K) {S : Store} (hS : SInv S) (hSK : ∀ r ∈ S.rows, K r.vp)
+    {d : Def} {t after seed ts : Nat} {done : List VP} {c : Store} {ctr : Nat} {vp : VP} {subj id : String} {e : Nat}
+    (rv : Row) (hrv : rv ∈ S.rows) (hvp : rv.vp = vp) (hafter : after < rv.ts) (hv : VPWF vp subj id e)
+    (h : PB K S t after done c) :
+    PB K S t after (vp :: done) (clientIter d t seed ts c ctr vp subj id e).1 := by
+  have hwrv := hS.wf rv hrv
+  obtain ⟨hsubj, hid, he⟩ := vpwf_of_row hwrv (hvp ▸ hv)
+  cases hk : c.hasKey subj id with
+  | true =>
+    rw [iter_rows_skip hk]
+    refine ⟨h.wf, h.k, h.one, h.j2, h.j3, ?_⟩
+    intro v hvm r hr hrvp hlive
+    rcases List.mem_cons.mp hvm with rfl | hd
+    · obtain ⟨s1, i1, _⟩ := vpwf_of_row (hS.wf r hr) (hrvp ▸ hv)
+      rw [← s1, ← i1]
+      exact (hasKey_iff c subj id).mp hk
+    · exact h.q v hd r hr hrvp hlive
+  | false =>
+    have hrows := iter_rows_add (d := d) (now := t) (seed := seed) (ts := ts) (ctr := ctr) (vp := vp) (e := e) hk
+    have hmem : ∀ r, r ∈ (clientIter d t seed ts c ctr vp subj id e).1.rows ↔
+        (r ∈ c.rows ∧ ¬ r.exp < t ∧ r.subject ≠ subj) ∨ r = (addOk c t vp subj id e (seedOf c seed ts (ctr + 1)) (tsOf c ts)).2 := by
+      intro r; rw [hrows]; exact mem_addOk
+    have hnk : ∀ x ∈ c.rows, x.subject = subj → x.id = id → False := by
+      intro x hx h1 h2
+      have := (hasKey_iff c subj id).mpr ⟨x, hx, h1, h2⟩
+      rw [hk] at this; cases this
+    -- a client row with the key of a live server row other than `rv` survives the add
+    have hkeep : ∀ r ∈ S.rows, t < r.exp → r ≠ rv → ∀ x ∈ c.rows, x.subject = r.subject → x.id = r.id →
+        x ∈ (clientIter d t seed ts c ctr vp subj id e).1.rows := by
+      intro r hr hlive hne x hx h1 h2
+      refine (hmem x).mpr (Or.inl ⟨hx, ?_, ?_⟩)
+      · have := (same_key hK (h.wf x hx) (hS.wf r hr) (h.k x hx) (hSK r hr) h1 h2).2
+        omega
+      · intro hxs
+        apply hne
+        exact pairwise_subject_inj hS.onePer hr hrv (by rw [← h1, hxs, hsubj])
+    refine ⟨?_, ?_, ?_, ?_, ?_, ?_⟩
+    · intro r hr
+      rcases (hmem r).mp hr with ⟨h1, _, _⟩ | h1
+      · exact h.wf r h1
+      · subst h1; exact hv
+    · intro r hr
+      rcases (hmem r).mp hr with ⟨h1, _, _⟩ | h1
+      · exact h.k r h1
+      · subst h1; show K vp; rw [← hvp]; exact hSK rv hrv
+    · rw [hrows]
+      show (_ ++ [_]).Pairwise _
+      rw [List.pairwise_append]
+      refine ⟨h.one.sublist ?_, List.pairwise_singleton _ _, ?_⟩
+      · unfold Store.prune
+        exact (List.filter_sublist).trans List.filter_sublist
+      · intro a ha b hb
+        simp only [List.mem_singleton] at hb
+        subst hb
+        exact (mem_kept.mp ha).2.2
+    · intro r hr hts hlive
+      obtain ⟨x, hx, h1, h2⟩ := h.j2 r hr hts hlive
+      have hne : r ≠ rv := by intro h; subst h; omega
+      exact ⟨x, hkeep r hr hlive hne x hx h1 h2, h1, h2⟩
+    · intro y hy hlive
+      rcases (hmem y).mp hy with ⟨h1, _, _⟩ | h1
+      · exact h.j3 y h1 hlive
+      · subst h1
+        left
+        exact ⟨rv, hrv, hsubj.symm, hid.symm⟩
+    · intro v hvm r hr hrvp hlive
+      rcases List.mem_cons.mp hvm with rfl | hd
+      · obtain ⟨s1, i1, _⟩ := vpwf_of_row (hS.wf r hr) (hrvp ▸ hv)
+        exact ⟨_, (hmem _).mpr (Or.inr rfl), s1, i1⟩
+      · obtain ⟨x, hx, h1, h2⟩ := h.q v hd r hr hrvp hlive
+        by_cases hne : r = rv
+        · subst hne
+          exact (hnk x hx (h1.trans hsubj.symm) (h2.trans hid.symm)).elim
+        · exact ⟨x, hkeep r hr hlive hne x hx h1 h2, h1, h2⟩
+
+
+/-- the rows part that holds of every replica, synchronised or not -/
+structure PA (K : VP → Prop) (c : Store) : Prop where
+  wf : ∀ r ∈ c.rows, RowWF r
+  k : ∀ r ∈ c.rows, K r.vp
+  one : c.rows.Pairwise (fun a b => a.subject ≠ b.subject)
+
+theorem PB.pa {K : VP → Prop} {S : Store} {t after : Nat} {done : List VP} {c : Store} (h : PB K S t after done c) : PA K c :=
+  ⟨h.wf, h.k, h.one⟩
+
+theorem pa_step {K : VP → Prop} {d : Def} {t seed ts : Nat} {c : Store} {ctr : Nat} {vp : VP} {subj id : String} {e : Nat}
+    (hkv : K vp) (hv : VPWF vp subj id e) (h : PA K c) :
+    PA K (clientIter d t seed ts c ctr vp subj id e).1 := by
+  cases hk : c.hasKey subj id with
+  | true => rw [iter_rows_skip hk]; exact h
+  | false =>
+    have hrows := iter_rows_add (d := d) (now := t) (seed := seed) (ts := ts) (ctr := ctr) (vp := vp) (e := e) hk
+    have hmem : ∀ r, r ∈ (clientIter d t seed ts c ctr vp subj id e).1.rows ↔
+        (r ∈ c.rows ∧ ¬ r.exp < t ∧ r.subject ≠ subj) ∨ r = (addOk c t vp subj id e (seedOf c seed ts (ctr + 1)) (tsOf c ts)).2 := by
+      intro r; rw [hrows]; exact mem_addOk
+    refine ⟨?_, ?_, ?_⟩
+    · intro r hr
+      rcases (hmem r).mp hr with ⟨h1, _, _⟩ | h1
+      · exact h.wf r h1
+      · subst h1; exact hv
+    · intro r hr
+      rcases (hmem r).mp hr with ⟨h1, _, _⟩ | h1
+      · exact h.k r h1
+      · subst h1; exact hkv
+    · rw [hrows]
+      show (_ ++ [_]).Pairwise _
+      rw [List.pairwise_append]
+      refine ⟨h.one.sublist ?_, List.pairwise_singleton _ _, ?_⟩
+      · unfold Store.prune
+        exact (List.filter_sublist).trans List.filter_sublist
+      · intro a ha b hb
+        simp only [List.mem_singleton] at hb
+        subst hb
+        exact (mem_kept.mp ha).2.2
+
+/-- what the response of `get` is made of: presentations of server rows above `after` -/
+def RespOf (S : Store) (after : Nat) (resp : List VP) : Prop :=
+  ∀ vp ∈ resp, ∃ rv ∈ S.rows, rv.vp = vp ∧ after < rv.ts
+
+theorem pa_loop {K : VP → Prop} {S : Store} (hS : SInv S) (hSK : ∀ r ∈ S.rows, K r.vp)
+    (d : Def) (t after seed ts : Nat) (resp : List VP) (hresp : RespOf S after resp) (c : Store) (ctr : Nat) (h : PA K c) :
+    PA K (clientLoop d t seed ts c ctr resp).1 ∧ (clientLoop d t seed ts c ctr resp).2.2 = .ok () := by
+  have hwf : ∀ vp ∈ resp, ∃ subj id e, VPWF vp subj id e := by
+    intro vp hvp
+    obtain ⟨rv, hrv, rfl, _⟩ := hresp vp hvp
+    exact ⟨_, _, _, (hS.wf rv hrv).vpwf⟩
+  obtain ⟨_, _, hp, hok⟩ := clientLoop_ind d t seed ts (fun _ c _ => PA K c) resp [] c ctr hwf
+    (by
+      intro done c ctr vp subj id e hvp hv hpa
+      obtain ⟨rv, hrv, rfl, _⟩ := hresp vp hvp
+      exact pa_step (hSK rv hrv) hv hpa) h
+  exact ⟨hp, hok⟩
+
+theorem pb_loop {K : VP → Prop} (hK : IdFun K) {S : Store} (hS : SInv S) (hSK : ∀ r ∈ S.rows, K r.vp)
+    (d : Def) (t after seed ts : Nat) (resp : List VP) (hresp : RespOf S after resp) (c : Store) (ctr : Nat)
+    (h : PB K S t after [] c) :
+    ∃ done, (∀ vp, vp ∈ done ↔ vp ∈ resp) ∧ PB K S t after done (clientLoop d t seed ts c ctr resp).1 := by
+  have hwf : ∀ vp ∈ resp, ∃ subj id e, VPWF vp subj id e := by
+    intro vp hvp
+    obtain ⟨rv, hrv, rfl, _⟩ := hresp vp hvp
+    exact ⟨_, _, _, (hS.wf rv hrv).vpwf⟩
+  obtain ⟨done, hd, hp, _⟩ := clientLoop_ind d t seed ts (fun done c _ => PB K S t after done c) resp [] c ctr hwf
+    (by
+      intro done c ctr vp subj id e hvp hv hpb
+      obtain ⟨rv, hrv, hrvp, haf⟩ := hresp vp hvp
+      exact pb_step hK hS hSK rv hrv hrvp haf hv hpb) h
+  exact ⟨done, by intro vp; rw [hd vp]; simp, hp⟩
+
+/-- once every row above `after` has been processed the live keys agree, whatever the timestamps -/
+theorem pb_upgrade {K : VP → Prop} {S : Store} {t after : Nat} {done : List VP} {c : Store}
+    (h : PB K S t after done c) (hall : ∀ r ∈ S.rows, after < r.ts → r.vp ∈ done) :
+    (∀ r ∈ S.rows, t < r.exp → keyIn c.rows r.subject r.id) ∧ (∀ y ∈ c.rows, t < y.exp → keyIn S.rows y.subject y.id) := by
+  have h1 : ∀ r ∈ S.rows, t < r.exp → keyIn c.rows r.subject r.id := by
+    intro r hr hlive
+    by_cases hts : r.ts ≤ after
+    · exact h.j2 r hr hts hlive
+    · exact h.q _ (hall r hr (by omega)) r hr rfl hlive
+  refine ⟨h1, ?_⟩
+  intro y hy hlive
+  rcases h.j3 y hy hlive with hk | ⟨r, hr, hs, _, hexp⟩
+  · exact hk
+  · obtain ⟨x, hx, hxs, hxi⟩ := h1 r hr (by omega)
+    have : x = y := pairwise_subject_inj h.one hx hy (hxs.trans hs)
+    subst this
+    exact ⟨r, hr, hxs.symm, hxi.symm⟩
+
+
+theorem iter_add_fields {d : Def} {now seed ts : Nat} {c : Store} {ctr : Nat} {vp : VP} {subj id : String} {e : Nat}
+    (hk : c.hasKey subj id = false) :
+    (clientIter d now seed ts c ctr vp subj id e).1.seed = seedOf c seed ts (ctr + 1) ∧
+    (clientIter d now seed ts c ctr vp subj id e).1.lastTs = tsOf c ts ∧
+    (clientIter d now seed ts c ctr vp subj id e).2 = ctr + 1 := by
+  simp only [clientIter, hk, Bool.false_eq_true, if_false]
+  refine ⟨?_, ?_, trivial⟩ <;> (split <;> rfl)
+
+/-- seed / timestamp bookkeeping of the replica through the loop -/
+structure PT (C0 : Store) (ctr0 seed ts : Nat) (c : Store) (ctr : Nat) : Prop where
+  mono : ctr0 ≤ ctr
+  le : c.seed ≤ ctr
+  z : c.seed = 0 → c.lastTs = 0 ∧ c.rows = []
+  tr : (c.seed = C0.seed ∧ c.lastTs = C0.lastTs) ∨ (ts ≠ 0 ∧ c.seed = seed ∧ c.lastTs = ts) ∨ (ts = 0 ∧ ctr0 < c.seed)
+
+theorem pt_step {C0 : Store} {ctr0 seed ts : Nat} (hseed : seed ≤ ctr0) (h0 : ts = 0 → seed = 0 ∧ C0.seed = 0) (h1 : ts ≠ 0 → seed ≠ 0)
+    {d : Def} {t : Nat} {c : Store} {ctr : Nat} {vp : VP} {subj id : String} {e : Nat}
+    (h : PT C0 ctr0 seed ts c ctr) :
+    PT C0 ctr0 seed ts (clientIter d t seed ts c ctr vp subj id e).1 (clientIter d t seed ts c ctr vp subj id e).2 := by
+  cases hk : c.hasKey subj id with
+  | true => rw [iter_rows_skip hk]; exact h
+  | false =>
+    obtain ⟨hs, hl, hc⟩ := iter_add_fields (d := d) (now := t) (seed := seed) (ts := ts) (ctr := ctr) (vp := vp) (e := e) hk
+    have hm := h.mono
+    have hle := h.le
+    by_cases hts : ts = 0
+    · obtain ⟨hs0, hc0⟩ := h0 hts
+      have hseed' : (clientIter d t seed ts c ctr vp subj id e).1.seed = if c.seed = 0 then ctr + 1 else c.seed := by
+        rw [hs]; simp [seedOf, hts, hs0]
+      have hgt : ctr0 < (clientIter d t seed ts c ctr vp subj id e).1.seed := by
+        rw [hseed']
+        split
+        · omega
+        · rename_i hne
+          rcases h.tr with ⟨h2, _⟩ | ⟨h2, _⟩ | ⟨_, h2⟩
+          · rw [hc0] at h2; exact absurd h2 hne
+          · exact absurd hts h2
+          · exact h2
+      refine ⟨by rw [hc]; omega, ?_, ?_, Or.inr (Or.inr ⟨hts, hgt⟩)⟩
+      · rw [hc, hseed']; split <;> omega
+      · intro hz; omega
+    · have hseed' : (clientIter d t seed ts c ctr vp subj id e).1.seed = seed := by
+        rw [hs]; simp [seedOf, hts]
+      have hl' : (clientIter d t seed ts c ctr vp subj id e).1.lastTs = ts := by
+        rw [hl]; simp [tsOf, hts]
+      refine ⟨by rw [hc]; omega, by rw [hc, hseed']; omega, ?_, Or.inr (Or.inl ⟨hts, hseed', hl'⟩)⟩
+      intro hz; rw [hseed'] at hz; exact absurd hz (h1 hts)
+
+theorem pt_loop {S : Store} (hS : SInv S) {C0 : Store} {ctr0 seed ts : Nat} (hseed : seed ≤ ctr0)
+    (h0 : ts = 0 → seed = 0 ∧ C0.seed = 0) (h1 : ts ≠ 0 → seed ≠ 0)
+    (d : Def) (t after : Nat) (resp : List VP) (hresp : RespOf S after resp) (c : Store) (ctr : Nat)
+    (h : PT C0 ctr0 seed ts c ctr) :
+    PT C0 ctr0 seed ts (clientLoop d t seed ts c ctr resp).1 (clientLoop d t seed ts c ctr resp).2.1 := by
+  have hwf : ∀ vp ∈ resp, ∃ subj id e, VPWF vp subj id e := by
+    intro vp hvp
+    obtain ⟨rv, hrv, rfl, _⟩ := hresp vp hvp
+    exact ⟨_, _, _, (hS.wf rv hrv).vpwf⟩
+  obtain ⟨_, _, hp, _⟩ := clientLoop_ind d t seed ts (fun _ c ctr => PT C0 ctr0 seed ts c ctr) resp [] c ctr hwf
+    (by
+      intro done c ctr vp subj id e _ _ hpt
+      exact pt_step hseed h0 h1 hpt) h
+  exact hp
+
+
+/-! ### the invariant of the two nodes -/
+
+def Sync (S C : Store) (t : Nat) : Prop := C.lastTs ≤ S.lastTs ∧ J2 S C t C.lastTs ∧ J3 S C t C.lastTs
+
+structure PendOK (w : World) (p : Pending) : Prop where
+  after : p.after = w.C.lastTs
+  le : p.seed ≤ w.ctr
+  zero : p.ts = 0 ↔ p.seed = 0
+  bound : p.seed = w.S.seed → p.ts ≤ w.S.lastTs
+
+structure WInv (K : VP → Prop) (w : World) : Prop where
+  srv : SInv w.S
+  sK : ∀ r ∈ w.S.rows, K r.vp
+  cli : PA K w.C
+  cz : w.C.seed = 0 → w.C.lastTs = 0 ∧ w.C.rows = []
+  sLe : w.S.seed ≤ w.ctr
+  cLe : w.C.seed ≤ w.ctr
+  pend : ∀ p, w.pending = some p → PendOK w p
+  sync : w.C.seed = w.S.seed → Sync w.S w.C w.t
+
+theorem winv_init (K : VP → Prop) (t : Nat) : WInv K { t := t } where
+  srv := sinv_empty
+  sK := by intro r h; cases h
+  cli := ⟨(by intro r h; cases h), (by intro r h; cases h), List.Pairwise.nil⟩
+  cz := fun _ => ⟨rfl, rfl⟩
+  sLe := Nat.le_refl _
+  cLe := Nat.le_refl _
+  pend := by intro p h; cases h
+  sync := fun _ => ⟨Nat.le_refl _, (by intro r h; cases h), (by intro r h; cases h)⟩
+
+theorem sync_mono {S C : Store} {t t' : Nat} (h : Sync S C t) (ht : t ≤ t') : Sync S C t' :=
+  ⟨h.1, fun r hr hts hl => h.2.1 r hr hts (by omega), fun c hc hl => h.2.2 c hc (by omega)⟩
+
+theorem winv_tick {K : VP → Prop} (cfg : Cfg) (d : Def) (w : World) (n : Nat) (h : WInv K w) :
+    WInv K (step cfg d w (.tick n)).1 := by
+  show WInv K { w with t := w.t + n }
+  exact ⟨h.srv, h.sK, h.cli, h.cz, h.sLe, h.cLe,
+    fun p hp => let q := h.pend p hp; ⟨q.after, q.le, q.zero, q.bound⟩,
+    fun hs => sync_mono (h.sync hs) (by show w.t ≤ w.t + n; omega)⟩
+
+theorem winv_reset {K : VP → Prop} (cfg : Cfg) (d : Def) (w : World) (h : WInv K w) :
+    WInv K (step cfg d w .reset).1 := by
+  show WInv K { w with S := {} }
+  refine ⟨sinv_empty, (by intro r hr; cases hr), h.cli, h.cz, Nat.zero_le _, h.cLe, ?_, ?_⟩
+  · intro p hp
+    have q := h.pend p hp
+    refine ⟨q.after, q.le, q.zero, ?_⟩
+    intro hs
+    have : p.ts = 0 := q.zero.mpr hs
+    show p.ts ≤ 0
+    omega
+  · intro hs
+    obtain ⟨h1, h2⟩ := h.cz hs
+    refine ⟨(by show w.C.lastTs ≤ 0; omega), (by intro r hr; cases hr), ?_⟩
+    intro c hc
+    rw [h2] at hc; cases hc
+
+theorem winv_pollA {K : VP → Prop} (cfg : Cfg) (hcfg : cfg.serviceFirst = true) (d : Def) (w : World) (h : WInv K w) :
+    WInv K (step cfg d w .pollA).1 := by
+  show WInv K { w with pending := some _ }
+  simp only [hcfg, if_true]
+  refine ⟨h.srv, h.sK, h.cli, h.cz, h.sLe, h.cLe, ?_, h.sync⟩
+  intro p hp
+  cases hp
+  refine ⟨rfl, h.sLe, ?_, fun _ => Nat.le_refl _⟩
+  constructor
+  · intro h0
+    apply Decidable.byContradiction
+    intro hne
+    have := (h.srv.seedPos hne).1
+    have h0' : w.S.lastTs = 0 := h0
+    omega
+  · intro h0
+    exact (h.srv.seed0 h0).1
+
+theorem winv_validate {K : VP → Prop} (cfg : Cfg) (d : Def) (w : World) (h : WInv K w) :
+    WInv K (step cfg d w .validate).1 := by
+  show WInv K { w with C := clientValidate d w.C w.t }
+  have hc : PA K (clientValidate d w.C w.t) := ⟨h.cli.wf, h.cli.k, h.cli.one⟩
+  exact ⟨h.srv, h.sK, hc, h.cz, h.sLe, h.cLe,
+    fun p hp => let q := h.pend p hp; ⟨q.after, q.le, q.zero, q.bound⟩,
+    fun hs => let q := h.sync hs; ⟨q.1, q.2.1, q.2.2⟩⟩
+
+
+/-- a subject's accepted registration does not expire before the entry it replaces (what a node's own refresh does:
+    `exp = now + maxValidity − 1` with a clock that does not run backwards) -/
+def ExpMono (d : Def) (w : World) (vp : VP) : Prop :=
+  (register d w.S w.t (w.ctr + 1) vp).2 = .ok () →
+    ∀ subj m e, vp.signer = some (subj, m) → vp.exp = some e → ∀ r ∈ w.S.rows, r.subject = subj → r.exp ≤ e
+
+theorem winv_register {K : VP → Prop} (hK : IdFun K) (cfg : Cfg) (d : Def) (w : World) (vp : VP)
+    (hkv : K vp) (hmono : ExpMono d w vp) (h : WInv K w) :
+    WInv K (step cfg d w (.register vp)).1 := by
+  show WInv K { w with S := (register d w.S w.t (w.ctr + 1) vp).1, ctr := w.ctr + 1 }
+  have hsLe := h.sLe
+  have hcLe := h.cLe
+  rcases register_cases d w.S w.t (w.ctr + 1) vp with ⟨o, ho, _⟩ | ⟨subj, e, id, hA, hid, _, hreg⟩
+  · rw [ho]
+    exact ⟨h.srv, h.sK, h.cli, h.cz, by show w.S.seed ≤ w.ctr + 1; omega, by show w.C.seed ≤ w.ctr + 1; omega,
+      fun p hp => let q := h.pend p hp; ⟨q.after, by have := q.le; show p.seed ≤ w.ctr + 1; omega, q.zero, q.bound⟩, h.sync⟩
+  · have hok : (register d w.S w.t (w.ctr + 1) vp).2 = .ok () := by rw [hreg]
+    obtain ⟨m, hsig, _⟩ := hA.signer
+    have hmono' := hmono hok subj m e hsig hA.exp
+    rw [hreg]
+    have hseedne : (if w.S.seed = 0 then w.ctr + 1 else w.S.seed) ≠ 0 := by split <;> omega
+    have hsinv := sinv_addOk w.S w.t vp subj m id e _ h.srv hsig hid hA.exp hA.jwt hseedne
+    have hmem : ∀ r, r ∈ (addOk w.S w.t vp subj id e (if w.S.seed = 0 then w.ctr + 1 else w.S.seed) (w.S.lastTs + 1)).1.rows ↔
+        (r ∈ w.S.rows ∧ ¬ r.exp < w.t ∧ r.subject ≠ subj) ∨
+          r = (addOk w.S w.t vp subj id e (if w.S.seed = 0 then w.ctr + 1 else w.S.seed) (w.S.lastTs + 1)).2 := fun r => mem_addOk
+    refine ⟨sinv_setValidated _ hsinv, ?_, h.cli, h.cz, ?_, by show w.C.seed ≤ w.ctr + 1; omega, ?_, ?_⟩
+    · intro r hr
+      rcases (hmem r).mp hr with ⟨h1, _, _⟩ | h1
+      · exact h.sK r h1
+      · subst h1; exact hkv
+    · show (if w.S.seed = 0 then w.ctr + 1 else w.S.seed) ≤ w.ctr + 1
+      split <;> omega
+    · intro p hp
+      have q := h.pend p hp
+      refine ⟨q.after, by have := q.le; show p.seed ≤ w.ctr + 1; omega, q.zero, ?_⟩
+      intro hs
+      have hs' : p.seed = (if w.S.seed = 0 then w.ctr + 1 else w.S.seed) := hs
+      show p.ts ≤ w.S.lastTs + 1
+      by_cases h0 : w.S.seed = 0
+      · rw [if_pos h0] at hs'; have := q.le; omega
+      · rw [if_neg h0] at hs'; have := q.bound hs'; omega
+    · intro hs
+      have hs' : w.C.seed = (if w.S.seed = 0 then w.ctr + 1 else w.S.seed) := hs
+      by_cases h0 : w.S.seed = 0
+      · rw [if_pos h0] at hs'; omega
+      · rw [if_neg h0] at hs'
+        obtain ⟨hle, hj2, hj3⟩ := h.sync hs'
+        refine ⟨by show w.C.lastTs ≤ w.S.lastTs + 1; omega, ?_, ?_⟩
+        · intro r hr hts hlive
+          rcases (hmem r).mp hr with ⟨h1, _, _⟩ | h1
+          · exact hj2 r h1 hts hlive
+          · subst h1
+            have : w.S.lastTs + 1 ≤ w.C.lastTs := hts
+            omega
+        · intro c hc hlive0
+          have hlive : w.t < c.exp := hlive0
+          -- the replacement of a same-subject server row is a newer entry that does not expire earlier
+          have hrepl : ∀ r0 ∈ w.S.rows, r0.subject = c.subject → c.exp ≤ r0.exp → r0.subject = subj →
+              ∃ r ∈ (addOk w.S w.t vp subj id e (if w.S.seed = 0 then w.ctr + 1 else w.S.seed) (w.S.lastTs + 1)).1.rows,
+                r.subject = c.subject ∧ w.C.lastTs < r.ts ∧ c.exp ≤ r.exp := by
+            intro r0 hr0 hs0 he0 hsub
+            refine ⟨_, (hmem _).mpr (Or.inr rfl), ?_, ?_, ?_⟩
+            · show subj = c.subject; rw [← hsub, hs0]
+            · show w.C.lastTs < w.S.lastTs + 1; omega
+            · show c.exp ≤ e
+              have := hmono' r0 hr0 hsub
+              omega
+          rcases hj3 c hc hlive with ⟨r0, hr0, hs0, hi0⟩ | ⟨r1, hr1, hs1, hts1, he1⟩
+          · have hexp : c.exp = r0.exp :=
+              (same_key hK (h.cli.wf c hc) (h.srv.wf r0 hr0) (h.cli.k c hc) (h.sK r0 hr0) hs0.symm hi0.symm).2
+            by_cases hsub : r0.subject = subj
+            · exact Or.inr (hrepl r0 hr0 hs0 (by omega) hsub)
+            · exact Or.inl ⟨r0, (hmem r0).mpr (Or.inl ⟨hr0, by omega, hsub⟩), hs0, hi0⟩
+          · by_cases hsub : r1.subject = subj
+            · exact Or.inr (hrepl r1 hr1 hs1 he1 hsub)
+            · exact Or.inr ⟨r1, (hmem r1).mpr (Or.inl ⟨hr1, by omega, hsub⟩), hs1, hts1, he1⟩
+
+
+theorem clientApply_cases (cfg : Cfg) (hcfg : cfg.restartOnWipe = true) (d : Def) (c : Store) (now ctr seed ts : Nat) (resp : List VP) :
+    (c.seed ≠ seed ∧ c.seed ≠ 0 ∧
+      clientApply cfg d c now ctr seed ts resp = ({ c with seed := seed, lastTs := 0, rows := [] }, ctr, .ok ())) ∨
+    ((c.seed = seed ∨ c.seed = 0) ∧ clientApply cfg d c now ctr seed ts resp = clientLoop d now seed ts c ctr resp) := by
+  unfold clientApply Store.wipeOnSeedChange
+  by_cases h : c.seed ≠ seed ∧ c.seed ≠ 0
+  · left
+    refine ⟨h.1, h.2, ?_⟩
+    simp [h, hcfg]
+  · right
+    refine ⟨?_, ?_⟩
+    · by_cases h1 : c.seed = seed
+      · exact Or.inl h1
+      · right
+        apply Decidable.byContradiction
+        intro h2
+        exact h ⟨h1, h2⟩
+    · simp [h]
+
+theorem respOf_perm {S : Store} {after : Nat} {perm : List VP → List VP} (hperm : ∀ l, (perm l).Perm l) :
+    RespOf S after (perm ((S.rowsAfter after).map (·.vp))) ∧
+    ∀ r ∈ S.rows, after < r.ts → r.vp ∈ perm ((S.rowsAfter after).map (·.vp)) := by
+  constructor
+  · intro vp hvp
+    have := (hperm _).mem_iff.mp hvp
+    obtain ⟨rv, hrv, rfl⟩ := List.mem_map.mp this
+    have hm := List.mem_filter.mp hrv
+    exact ⟨rv, hm.1, rfl, by simpa using hm.2⟩
+  · intro r hr hts
+    apply (hperm _).mem_iff.mpr
+    exact List.mem_map.mpr ⟨r, List.mem_filter.mpr ⟨hr, by simpa using hts⟩, rfl⟩
+
+theorem winv_pollB {K : VP → Prop} (hK : IdFun K) (cfg : Cfg) (hsf : cfg.serviceFirst = true) (hrw : cfg.restartOnWipe = true)
+    (d : Def) (w : World) (perm : List VP → List VP) (hperm : ∀ l, (perm l).Perm l) (h : WInv K w) :
+    WInv K (step cfg d w (.pollB perm)).1 := by
+  unfold step
+  cases hp : w.pending with
+  | none => simp only; exact h
+  | some p =>
+    simp only [hsf, if_true]
+    have q := h.pend p hp
+    obtain ⟨hresp, hall⟩ := respOf_perm (S := w.S) (after := p.after) hperm
+    rcases clientApply_cases cfg hrw d w.C w.t w.ctr p.seed p.ts (perm ((w.S.rowsAfter p.after).map (·.vp)))
+      with ⟨_, _, heq⟩ | ⟨hnw, heq⟩
+    · rw [heq]
+      refine ⟨h.srv, h.sK, ⟨(by intro r hr; cases hr), (by intro r hr; cases hr), List.Pairwise.nil⟩,
+        fun _ => ⟨rfl, rfl⟩, h.sLe, q.le, (by intro p' hp'; cases hp'), ?_⟩
+      intro _
+      refine ⟨Nat.zero_le _, ?_, (by intro c hc; cases hc)⟩
+      intro r hr hts _
+      have := (h.srv.bound r hr).1
+      have : r.ts ≤ 0 := hts
+      omega
+    · rw [heq]
+      obtain ⟨hpa, _⟩ := pa_loop h.srv h.sK d w.t p.after p.seed p.ts _ hresp w.C w.ctr h.cli
+      have h0 : p.ts = 0 → p.seed = 0 ∧ w.C.seed = 0 := by
+        intro hz
+        have := q.zero.mp hz
+        refine ⟨this, ?_⟩
+        rcases hnw with h1 | h1
+        · rw [h1]; exact this
+        · exact h1
+      have h1 : p.ts ≠ 0 → p.seed ≠ 0 := fun hne hz => hne (q.zero.mpr hz)
+      have hpt := pt_loop h.srv q.le h0 h1 d w.t p.after _ hresp w.C w.ctr
+        ⟨Nat.le_refl _, h.cLe, h.cz, Or.inl ⟨rfl, rfl⟩⟩
+      refine ⟨h.srv, h.sK, hpa, hpt.z, (Nat.le_trans h.sLe hpt.mono), hpt.le,
+        (by intro p' hp'; cases hp'), ?_⟩
+      intro hs
+      have hs' : (clientLoop d w.t p.seed p.ts w.C w.ctr (perm ((w.S.rowsAfter p.after).map (·.vp)))).1.seed = w.S.seed := hs
+      -- the replica we started from was in step with the list, or empty
+      have hinit : (w.C.seed = w.S.seed ∨ w.C.seed = 0) →
+          PB K w.S w.t p.after [] w.C := by
+        intro hc
+        refine ⟨h.cli.wf, h.cli.k, h.cli.one, ?_, ?_, (by intro vp hvp; cases hvp)⟩
+        · rcases hc with hc | hc
+          · rw [q.after]; exact (h.sync hc).2.1
+          · intro r hr hts _
+            have := (h.srv.bound r hr).1
+            have := (h.cz hc).1
+            have := q.after
+            omega
+        · rcases hc with hc | hc
+          · rw [q.after]; exact (h.sync hc).2.2
+          · intro c hcm
+            rw [(h.cz hc).2] at hcm; cases hcm
+      have hfin : (w.C.seed = w.S.seed ∨ w.C.seed = 0) →
+          (clientLoop d w.t p.seed p.ts w.C w.ctr (perm ((w.S.rowsAfter p.after).map (·.vp)))).1.lastTs ≤ w.S.lastTs →
+          Sync w.S (clientLoop d w.t p.seed p.ts w.C w.ctr (perm ((w.S.rowsAfter p.after).map (·.vp)))).1 w.t := by
+        intro hc hle
+        obtain ⟨done, hd, hpb⟩ := pb_loop hK h.srv h.sK d w.t p.after p.seed p.ts _ hresp w.C w.ctr (hinit hc)
+        obtain ⟨u1, u2⟩ := pb_upgrade hpb (fun r hr hts => (hd _).mpr (hall r hr hts))
+        exact ⟨hle, fun r hr _ hl => u1 r hr hl, fun c hc hl => Or.inl (u2 c hc hl)⟩
+      rcases hpt.tr with ⟨t1, t2⟩ | ⟨_, t1, t2⟩ | ⟨_, t1⟩
+      · have hc : w.C.seed = w.S.seed := by rw [← t1]; exact hs'
+        exact hfin (Or.inl hc) (by rw [t2]; exact (h.sync hc).1)
+      · have hps : p.seed = w.S.seed := by rw [← t1]; exact hs'
+        refine hfin ?_ (by rw [t2]; exact q.bound hps)
+        rcases hnw with h2 | h2
+        · exact Or.inl (h2.trans hps)
+        · exact Or.inr h2
+      · have := h.sLe
+        omega
+
+
+/-! ### admissible histories -/
+
+/-- side conditions on an event in world `w`: offered presentations come from `K` and respect `ExpMono`; the
+    iteration order of the response map is a permutation -/
+def EvOK (K : VP → Prop) (d : Def) (w : World) : Ev → Prop
+  | .register vp => K vp ∧ ExpMono d w vp
+  | .pollB perm => ∀ l, (perm l).Perm l
+  | _ => True
+
+/-- worlds reachable from two empty nodes by any admissible history -/
+inductive Reach (cfg : Cfg) (d : Def) (K : VP → Prop) : World → Prop where
+  | init (t : Nat) : Reach cfg d K { t := t }
+  | step (w : World) (e : Ev) : Reach cfg d K w → EvOK K d w e → Reach cfg d K (step cfg d w e).1
+
+theorem winv_step {K : VP → Prop} (hK : IdFun K) (cfg : Cfg) (hsf : cfg.serviceFirst = true) (hrw : cfg.restartOnWipe = true)
+    (d : Def) (w : World) (e : Ev) (he : EvOK K d w e) (h : WInv K w) : WInv K (step cfg d w e).1 := by
+  cases e with
+  | tick n => exact winv_tick cfg d w n h
+  | register vp => exact winv_register hK cfg d w vp he.1 he.2 h
+  | reset => exact winv_reset cfg d w h
+  | pollA => exact winv_pollA cfg hsf d w h
+  | pollB perm => exact winv_pollB hK cfg hsf hrw d w perm he h
+  | validate => exact winv_validate cfg d w h
+
+theorem winv_reach {K : VP → Prop} (hK : IdFun K) (cfg : Cfg) (hsf : cfg.serviceFirst = true) (hrw : cfg.restartOnWipe = true)
+    (d : Def) {w : World} (h : Reach cfg d K w) : WInv K w := by
+  induction h with
+  | init t => exact winv_init K t
+  | step w e _ he ih => exact winv_step hK cfg hsf hrw d w e he ih
+
+/-! ### convergence -/
+
+/-- the live sets agree: same (subject, id) keys among the rows that have not expired at `t` -/
+def LiveEq (S C : Store) (t : Nat) : Prop := ∀ k, k ∈ S.liveKeys t ↔ k ∈ C.liveKeys t
+
+theorem mem_liveKeys {s : Store} {t : Nat} {k : String × String} :
+    k ∈ s.liveKeys t ↔ ∃ r ∈ s.rows, t < r.exp ∧ r.subject = k.1 ∧ r.id = k.2 := by
+  unfold Store.liveKeys
+  simp only [List.mem_map, List.mem_filter, Row.live, decide_eq_true_eq]
+  constructor
+  · rintro ⟨r, ⟨h1, h2⟩, rfl⟩; exact ⟨r, h1, h2, rfl, rfl⟩
+  · rintro ⟨r, h1, h2, h3, h4⟩; exact ⟨r, ⟨h1, h2⟩, by rw [h3, h4]⟩
+
+theorem liveEq_of_upgrade {K : VP → Prop} (hK : IdFun K) {S C : Store} {t : Nat}
+    (hSwf : ∀ r ∈ S.rows, RowWF r) (hSK : ∀ r ∈ S.rows, K r.vp) (hC : PA K C)
+    (u1 : ∀ r ∈ S.rows, t < r.exp → keyIn C.rows r.subject r.id)
+    (u2 : ∀ y ∈ C.rows, t < y.exp → keyIn S.rows y.subject y.id) : LiveEq S C t := by
+  intro k
+  rw [mem_liveKeys, mem_liveKeys]
+  constructor
+  · rintro ⟨r, hr, hl, h1, h2⟩
+    obtain ⟨x, hx, hs, hi⟩ := u1 r hr hl
+    have := (same_key hK (hC.wf x hx) (hSwf r hr) (hC.k x hx) (hSK r hr) hs hi).2
+    exact ⟨x, hx, by omega, hs.trans h1, hi.trans h2⟩
+  · rintro ⟨y, hy, hl, h1, h2⟩
+    obtain ⟨x, hx, hs, hi⟩ := u2 y hy hl
+    have := (same_key hK (hSwf x hx) (hC.wf y hy) (hSK x hx) (hC.k y hy) hs hi).2
+    exact ⟨x, hx, by omega, hs.trans h1, hi.trans h2⟩
+
+
+/-- the response a quiescent poll gets -/
+def quietResp (w : World) (perm : List VP → List VP) : List VP := perm ((w.S.rowsAfter w.C.lastTs).map (·.vp))
+
+theorem poll_eq (cfg : Cfg) (hsf : cfg.serviceFirst = true) (d : Def) (w : World) (perm : List VP → List VP) :
+    poll cfg d w perm =
+      { w with C := (clientApply cfg d w.C w.t w.ctr w.S.seed w.S.lastTs (quietResp w perm)).1,
+               ctr := (clientApply cfg d w.C w.t w.ctr w.S.seed w.S.lastTs (quietResp w perm)).2.1,
+               pending := none } := by
+  simp [poll, step, hsf, quietResp]
+
+theorem pb_init {K : VP → Prop} {w : World} (h : WInv K w) (hc : w.C.seed = w.S.seed ∨ w.C.seed = 0) :
+    PB K w.S w.t w.C.lastTs [] w.C := by
+  refine ⟨h.cli.wf, h.cli.k, h.cli.one, ?_, ?_, (by intro vp hvp; cases hvp)⟩
+  · rcases hc with hc | hc
+    · exact (h.sync hc).2.1
+    · intro r hr hts _
+      have := (h.srv.bound r hr).1
+      have := (h.cz hc).1
+      omega
+  · rcases hc with hc | hc
+    · exact (h.sync hc).2.2
+    · intro c hcm
+      rw [(h.cz hc).2] at hcm; cases hcm
+
+/-- a quiescent poll of a replica that carries the list's seed (or none yet) ends with the list's live set -/
+theorem converge_one {K : VP → Prop} (hK : IdFun K) (cfg : Cfg) (hsf : cfg.serviceFirst = true) (hrw : cfg.restartOnWipe = true)
+    (d : Def) (w : World) (perm : List VP → List VP) (hperm : ∀ l, (perm l).Perm l) (h : WInv K w)
+    (hc : w.C.seed = w.S.seed ∨ w.C.seed = 0) :
+    (poll cfg d w perm).S = w.S ∧ (poll cfg d w perm).t = w.t ∧
+    LiveEq w.S (poll cfg d w perm).C w.t ∧
+    ((poll cfg d w perm).C.seed = w.S.seed ∨ (poll cfg d w perm).C.seed = 0) := by
+  rw [poll_eq cfg hsf]
+  unfold quietResp
+  refine ⟨rfl, rfl, ?_⟩
+  obtain ⟨hresp, hall⟩ := respOf_perm (S := w.S) (after := w.C.lastTs) hperm
+  rcases clientApply_cases cfg hrw d w.C w.t w.ctr w.S.seed w.S.lastTs (perm ((w.S.rowsAfter w.C.lastTs).map (·.vp))) with ⟨h1, h2, _⟩ | ⟨_, heq⟩
+  · rcases hc with hc | hc
+    · exact absurd hc h1
+    · exact absurd hc h2
+  · rw [heq]
+    show LiveEq w.S (clientLoop d w.t w.S.seed w.S.lastTs w.C w.ctr (perm ((w.S.rowsAfter w.C.lastTs).map (·.vp)))).1 w.t ∧
+      ((clientLoop d w.t w.S.seed w.S.lastTs w.C w.ctr (perm ((w.S.rowsAfter w.C.lastTs).map (·.vp)))).1.seed = w.S.seed ∨
+       (clientLoop d w.t w.S.seed w.S.lastTs w.C w.ctr (perm ((w.S.rowsAfter w.C.lastTs).map (·.vp)))).1.seed = 0)
+    obtain ⟨hpa, _⟩ := pa_loop h.srv h.sK d w.t w.C.lastTs w.S.seed w.S.lastTs _ hresp w.C w.ctr h.cli
+    obtain ⟨done, hd, hpb⟩ := pb_loop hK h.srv h.sK d w.t w.C.lastTs w.S.seed w.S.lastTs _ hresp w.C w.ctr (pb_init h hc)
+    obtain ⟨u1, u2⟩ := pb_upgrade hpb (fun r hr hts => (hd _).mpr (hall r hr hts))
+    refine ⟨liveEq_of_upgrade hK h.srv.wf h.sK hpa u1 u2, ?_⟩
+    -- the seed: unchanged, or the list's
+    have hz : w.S.lastTs = 0 ↔ w.S.seed = 0 := by
+      constructor
+      · intro h0
+        apply Decidable.byContradiction
+        intro hne
+        have := (h.srv.seedPos hne).1
+        omega
+      · intro h0; exact (h.srv.seed0 h0).1
+    by_cases hs0 : w.S.seed = 0
+    · -- an empty list: nothing to apply
+      have hrows : w.S.rows = [] := (h.srv.seed0 hs0).2
+      have : perm ((w.S.rowsAfter w.C.lastTs).map (·.vp)) = [] := by
+        have hp := hperm ((w.S.rowsAfter w.C.lastTs).map (·.vp))
+        have : (w.S.rowsAfter w.C.lastTs).map (·.vp) = [] := by simp [Store.rowsAfter, hrows]
+        rw [this] at hp ⊢
+        exact List.Perm.eq_nil hp
+      rw [this]
+      simp only [clientLoop]
+      rcases hc with hc | hc
+      · exact Or.inl hc
+      · exact Or.inr hc
+    · have h0 : w.S.lastTs = 0 → w.S.seed = 0 ∧ w.C.seed = 0 := fun hz0 => absurd (hz.mp hz0) hs0
+      have h1 : w.S.lastTs ≠ 0 → w.S.seed ≠ 0 := fun _ => hs0
+      have hpt := pt_loop h.srv h.sLe h0 h1 d w.t w.C.lastTs _ hresp w.C w.ctr
+        ⟨Nat.le_refl _, h.cLe, h.cz, Or.inl ⟨rfl, rfl⟩⟩
+      rcases hpt.tr with ⟨t1, _⟩ | ⟨_, t1, _⟩ | ⟨t0, _⟩
+      · rw [t1]
+        rcases hc with hc | hc
+        · exact Or.inl hc
+        · exact Or.inr hc
+      · exact Or.inl t1
+      · exact absurd (hz.mp t0) hs0
+
+
+theorem winv_poll {K : VP → Prop} (hK : IdFun K) (cfg : Cfg) (hsf : cfg.serviceFirst = true) (hrw : cfg.restartOnWipe = true)
+    (d : Def) (w : World) (perm : List VP → List VP) (hperm : ∀ l, (perm l).Perm l) (h : WInv K w) :
+    WInv K (poll cfg d w perm) :=
+  winv_pollB hK cfg hsf hrw d _ perm hperm (winv_pollA cfg hsf d w h)
+
+/-- a poll that sees another seed leaves an empty replica with timestamp 0 and the new seed — whatever the response held -/
+theorem poll_wipes (cfg : Cfg) (hsf : cfg.serviceFirst = true) (hrw : cfg.restartOnWipe = true)
+    (d : Def) (w : World) (perm : List VP → List VP) (h1 : w.C.seed ≠ w.S.seed) (h2 : w.C.seed ≠ 0) :
+    (poll cfg d w perm).C = { w.C with seed := w.S.seed, lastTs := 0, rows := [] } ∧
+    (poll cfg d w perm).S = w.S ∧ (poll cfg d w perm).t = w.t := by
+  rw [poll_eq cfg hsf]
+  refine ⟨?_, rfl, rfl⟩
+  rcases clientApply_cases cfg hrw d w.C w.t w.ctr w.S.seed w.S.lastTs (quietResp w perm) with ⟨_, _, heq⟩ | ⟨hc, _⟩
+  · show (clientApply cfg d w.C w.t w.ctr w.S.seed w.S.lastTs (quietResp w perm)).1 = _
+    rw [heq]
+  · rcases hc with hc | hc
+    · exact absurd hc h1
+    · exact absurd hc h2
+
+/-- two quiescent polls always suffice -/
+theorem converge_two {K : VP → Prop} (hK : IdFun K) (cfg : Cfg) (hsf : cfg.serviceFirst = true) (hrw : cfg.restartOnWipe = true)
+    (d : Def) (w : World) (p1 p2 : List VP → List VP) (hp1 : ∀ l, (p1 l).Perm l) (hp2 : ∀ l, (p2 l).Perm l) (h : WInv K w) :
+    (poll cfg d (poll cfg d w p1) p2).S = w.S ∧ (poll cfg d (poll cfg d w p1) p2).t = w.t ∧
+    LiveEq w.S (poll cfg d (poll cfg d w p1) p2).C w.t ∧
+    ((poll cfg d (poll cfg d w p1) p2).C.seed = w.S.seed ∨ (poll cfg d (poll cfg d w p1) p2).C.seed = 0) := by
+  have hw1 := winv_poll hK cfg hsf hrw d w p1 hp1 h
+  have key : (poll cfg d w p1).S = w.S ∧ (poll cfg d w p1).t = w.t ∧
+      ((poll cfg d w p1).C.seed = w.S.seed ∨ (poll cfg d w p1).C.seed = 0) := by
+    by_cases hc : w.C.seed = w.S.seed ∨ w.C.seed = 0
+    · obtain ⟨a, b, _, c⟩ := converge_one hK cfg hsf hrw d w p1 hp1 h hc
+      exact ⟨a, b, c⟩
+    · have h1 : w.C.seed ≠ w.S.seed := fun x => hc (Or.inl x)
+      have h2 : w.C.seed ≠ 0 := fun x => hc (Or.inr x)
+      obtain ⟨a, b, c⟩ := poll_wipes cfg hsf hrw d w p1 h1 h2
+      exact ⟨b, c, Or.inl (by rw [a])⟩
+  obtain ⟨hS, ht, hseed⟩ := key
+  have := converge_one hK cfg hsf hrw d (poll cfg d w p1) p2 hp2 hw1 (by rw [hS]; exact hseed)
+  rw [hS, ht] at this
+  exact this
+
+/-- duplicates are skipped: a response whose presentations are all held already changes nothing -/
+theorem clientLoop_all_present (d : Def) (now seed ts : Nat) (c : Store) (ctr : Nat) :
+    ∀ (resp : List VP), (∀ vp ∈ resp, ∃ subj id e, VPWF vp subj id e ∧ c.hasKey subj id = true) →
+      clientLoop d now seed ts c ctr resp = (c, ctr, .ok ()) := by
+  intro resp
+  induction resp with
+  | nil => intro _; rfl
+  | cons vp rest ih =>
+    intro h
+    obtain ⟨subj, id, e, hv, hk⟩ := h vp (by simp)
+    rw [clientLoop_cons d now seed ts c ctr vp rest subj id e hv, iter_rows_skip hk]
+    exact ih (fun v hv' => h v (by simp [hv']))
+
+
+/-! ### search returns only what the client verified itself -/
+
+/-- the client's own `verifyRegistration` accepted this presentation at some earlier clock value -/
+def ClientVerified (d : Def) (t : Nat) (vp : VP) : Prop := ∃ s now, now ≤ t ∧ verify d s now .client vp = .ok ()
+
+structure CV (d : Def) (t : Nat) (c : Store) : Prop where
+  rowsLt : ∀ r ∈ c.rows, r.pk < c.nextPk
+  valLt : ∀ pk ∈ c.validated, pk < c.nextPk
+  inj : c.rows.Pairwise (fun a b => a.pk ≠ b.pk)
+  ver : ∀ r ∈ c.rows, c.isValidated r = true → ClientVerified d t r.vp
+
+theorem pairwise_pk_inj {l : List Row} (h : l.Pairwise (fun a b => a.pk ≠ b.pk)) {a b : Row}
+    (ha : a ∈ l) (hb : b ∈ l) (hs : a.pk = b.pk) : a = b := by
+  induction l with
+  | nil => cases ha
+  | cons x xs ih =>
+    rw [List.pairwise_cons] at h
+    rcases List.mem_cons.mp ha with rfl | ha'
+    · rcases List.mem_cons.mp hb with rfl | hb'
+      · rfl
+      · exact absurd hs (h.1 b hb')
+    · rcases List.mem_cons.mp hb with rfl | hb'
+      · exact absurd hs.symm (h.1 a ha')
+      · exact ih h.2 ha' hb'
+
+theorem cv_empty (d : Def) (t : Nat) : CV d t {} :=
+  ⟨(by intro r h; cases h), (by intro r h; cases h), List.Pairwise.nil, (by intro r h; cases h)⟩
+
+theorem cv_mono {d : Def} {t t' : Nat} {c : Store} (h : CV d t c) (ht : t ≤ t') : CV d t' c :=
+  ⟨h.rowsLt, h.valLt, h.inj, fun r hr hv => by
+    obtain ⟨s, now, h1, h2⟩ := h.ver r hr hv
+    exact ⟨s, now, by omega, h2⟩⟩
+
+theorem cv_iter {d : Def} {t seed ts : Nat} {c : Store} {ctr : Nat} {vp : VP} {subj id : String} {e : Nat}
+    (h : CV d t c) : CV d t (clientIter d t seed ts c ctr vp subj id e).1 := by
+  cases hk : c.hasKey subj id with
+  | true => rw [iter_rows_skip hk]; exact h
+  | false =>
+    simp only [clientIter, hk, Bool.false_eq_true, if_false]
+    have hmem : ∀ r, r ∈ (addOk c t vp subj id e (seedOf c seed ts (ctr + 1)) (tsOf c ts)).1.rows ↔
+        (r ∈ c.rows ∧ ¬ r.exp < t ∧ r.subject ≠ subj) ∨ r = (addOk c t vp subj id e (seedOf c seed ts (ctr + 1)) (tsOf c ts)).2 :=
+      fun r => mem_addOk
+    have hpk : (addOk c t vp subj id e (seedOf c seed ts (ctr + 1)) (tsOf c ts)).2.pk = c.nextPk := rfl
+    have hnext : (addOk c t vp subj id e (seedOf c seed ts (ctr + 1)) (tsOf c ts)).1.nextPk = c.nextPk + 1 := rfl
+    have hval : (addOk c t vp subj id e (seedOf c seed ts (ctr + 1)) (tsOf c ts)).1.validated = c.validated := rfl
+    -- after the add
+    have hA : CV d t (addOk c t vp subj id e (seedOf c seed ts (ctr + 1)) (tsOf c ts)).1 := by
+      refine ⟨?_, ?_, ?_, ?_⟩
+      · intro r hr
+        rw [hnext]
+        rcases (hmem r).mp hr with ⟨h1, _, _⟩ | h1
+        · have := h.rowsLt r h1; omega
+        · rw [h1, hpk]; omega
+      · intro pk hpkm
+        rw [hnext]
+        rw [hval] at hpkm
+        have := h.valLt pk hpkm; omega
+      · show (_ ++ [_]).Pairwise _
+        rw [List.pairwise_append]
+        refine ⟨h.inj.sublist ?_, List.pairwise_singleton _ _, ?_⟩
+        · unfold Store.prune
+          exact (List.filter_sublist).trans List.filter_sublist
+        · intro a ha b hb
+          simp only [List.mem_singleton] at hb
+          subst hb
+          have := h.rowsLt a (mem_kept.mp ha).1
+          show a.pk ≠ c.nextPk
+          omega
+      · intro r hr hv
+        rcases (hmem r).mp hr with ⟨h1, _, _⟩ | h1
+        · exact h.ver r h1 hv
+        · have : c.validated.contains c.nextPk = true := by
+            rw [h1] at hv; exact hv
+          have := h.valLt c.nextPk (by simpa using this)
+          omega
+    split
+    · rename_i hver
+      refine ⟨hA.rowsLt, ?_, hA.inj, ?_⟩
+      · intro pk hpkm
+        rcases List.mem_cons.mp hpkm with rfl | h1
+        · show c.nextPk < c.nextPk + 1; omega
+        · exact hA.valLt pk h1
+      · intro r hr hv
+        have hv' : (c.nextPk :: c.validated).contains r.pk = true := hv
+        by_cases hrp : r.pk = c.nextPk
+        · rcases (hmem r).mp hr with ⟨h1, _, _⟩ | h1
+          · have := h.rowsLt r h1; omega
+          · rw [h1]
+            exact ⟨_, t, Nat.le_refl _, hver⟩
+        · apply hA.ver r hr
+          show c.validated.contains r.pk = true
+          simp only [List.contains_cons, Bool.or_eq_true, beq_iff_eq] at hv'
+          rcases hv' with h1 | h1
+          · exact absurd h1 hrp
+          · exact h1
+    · exact hA
+
+theorem cv_loop {S : Store} (hS : SInv S) (d : Def) (t after seed ts : Nat) (resp : List VP) (hresp : RespOf S after resp)
+    (c : Store) (ctr : Nat) (h : CV d t c) : CV d t (clientLoop d t seed ts c ctr resp).1 := by
+  have hwf : ∀ vp ∈ resp, ∃ subj id e, VPWF vp subj id e := by
+    intro vp hvp
+    obtain ⟨rv, hrv, rfl, _⟩ := hresp vp hvp
+    exact ⟨_, _, _, (hS.wf rv hrv).vpwf⟩
+  obtain ⟨_, _, hp, _⟩ := clientLoop_ind d t seed ts (fun _ c _ => CV d t c) resp [] c ctr hwf
+    (by intro done c ctr vp subj id e _ _ hcv; exact cv_iter hcv) h
+  exact hp
+
+theorem cv_validate {d : Def} {t : Nat} {c : Store} (h : CV d t c) : CV d t (clientValidate d c t) := by
+  refine ⟨h.rowsLt, ?_, h.inj, ?_⟩
+  · intro pk hpk
+    show pk < c.nextPk
+    have hpk' : pk ∈ ((c.rows.filter (fun r => !(c.isValidated r) && (verify d c t .client r.vp).isOk)).map (·.pk)) ++ c.validated := hpk
+    rcases List.mem_append.mp hpk' with h1 | h1
+    · obtain ⟨r, hr, rfl⟩ := List.mem_map.mp h1
+      exact h.rowsLt r (List.mem_filter.mp hr).1
+    · exact h.valLt pk h1
+  · intro r hr hv
+    have hv' : (((c.rows.filter (fun r => !(c.isValidated r) && (verify d c t .client r.vp).isOk)).map (·.pk)) ++ c.validated).contains r.pk = true := hv
+    have hm : r.pk ∈ ((c.rows.filter (fun r => !(c.isValidated r) && (verify d c t .client r.vp).isOk)).map (·.pk)) ++ c.validated := by
+      simpa using hv'
+    rcases List.mem_append.mp hm with h1 | h1
+    · obtain ⟨r', hr', hpk⟩ := List.mem_map.mp h1
+      have hf := List.mem_filter.mp hr'
+      have : r' = r := pairwise_pk_inj h.inj hf.1 hr hpk
+      subst this
+      have hok : (verify d c t .client r'.vp).isOk = true := by
+        have := hf.2; simp only [Bool.and_eq_true] at this; exact this.2
+      refine ⟨c, t, Nat.le_refl _, ?_⟩
+      cases hvv : verify d c t .client r'.vp with
+      | ok u => cases u; rfl
+      | err e => rw [hvv] at hok; cases hok
+      | panic p => rw [hvv] at hok; cases hok
+    · exact h.ver r hr (by show c.validated.contains r.pk = true; simpa using h1)
+
+
+/-- the Go map iteration order of a `pollB` event is a permutation of the response -/
+def PermOK : Ev → Prop
+  | .pollB perm => ∀ l, (perm l).Perm l
+  | _ => True
+
+structure SrchInv (d : Def) (w : World) : Prop where
+  srv : ServerOK d w
+  cv : CV d w.t w.C
+
+theorem srchInv_step (cfg : Cfg) (hsf : cfg.serviceFirst = true) (hrw : cfg.restartOnWipe = true) (d : Def) (w : World) (e : Ev)
+    (he : PermOK e) (h : SrchInv d w) : SrchInv d (step cfg d w e).1 := by
+  refine ⟨serverOK_step cfg d w e h.srv, ?_⟩
+  cases e with
+  | tick n => exact cv_mono h.cv (by show w.t ≤ w.t + n; omega)
+  | register vp => exact h.cv
+  | reset => exact h.cv
+  | pollA => exact h.cv
+  | validate => exact cv_validate h.cv
+  | pollB perm =>
+    unfold step
+    cases hp : w.pending with
+    | none => exact h.cv
+    | some p =>
+      simp only [hsf, if_true]
+      obtain ⟨hresp, _⟩ := respOf_perm (S := w.S) (after := p.after) he
+      rcases clientApply_cases cfg hrw d w.C w.t w.ctr p.seed p.ts (perm ((w.S.rowsAfter p.after).map (·.vp)))
+        with ⟨_, _, heq⟩ | ⟨_, heq⟩
+      · rw [heq]
+        exact ⟨(by intro r hr; cases hr), h.cv.valLt, List.Pairwise.nil, (by intro r hr; cases hr)⟩
+      · rw [heq]
+        exact cv_loop h.srv.inv d w.t p.after p.seed p.ts _ hresp w.C w.ctr h.cv
+
+theorem run_inv_ev (cfg : Cfg) (d : Def) (Q : Ev → Prop) (P : World → Prop)
+    (hstep : ∀ w e, Q e → P w → P (step cfg d w e).1) :
+    ∀ (evs : List Ev) (w : World), (∀ e ∈ evs, Q e) → P w → P (run cfg d w evs) := by
+  intro evs
+  induction evs with
+  | nil => intro w _ h; exact h
+  | cons e es ih =>
+    intro w hq h
+    exact ih _ (fun e' he' => hq e' (by simp [he'])) (hstep w e (hq e (by simp)) h)
+
+theorem srchInv_run (cfg : Cfg) (hsf : cfg.serviceFirst = true) (hrw : cfg.restartOnWipe = true) (d : Def)
+    (evs : List Ev) (t0 : Nat) (hq : ∀ e ∈ evs, PermOK e) : SrchInv d (run cfg d { t := t0 } evs) :=
+  run_inv_ev cfg d PermOK (SrchInv d) (fun w e => srchInv_step cfg hsf hrw d w e) evs _ hq
+    ⟨serverOK_init d t0, cv_empty d t0⟩
 
 
 end Nuts.C16
